@@ -146,6 +146,13 @@ def arrayEntries : Nat → List Tok → List ArrEntry → Option (List ArrEntry 
         | .rbrack :: r' => some (acc ++ [e], r')
         | _ => none
 
+def ArrEntry.intVal : ArrEntry → Option Nat
+  | .int s => some (digitsToNat s.toList)
+  | _ => none
+def ArrEntry.boolVal : ArrEntry → Option Bool
+  | .bool b => some b
+  | _ => none
+
 /-- `Display for IterableKind::Integers / Booleans` (`{:?}` of the vector) -/
 def arrayText (items : List String) : String := "[" ++ ", ".intercalate items ++ "]"
 
@@ -158,8 +165,8 @@ def arrayLeaf (toks : List Tok) : PRes (PExp × List Tok) :=
     match arrayEntries (r1.length + 1) r1 [] with
     | none => .error .reject
     | some (es, r) =>
-      let ints := es.filterMap (fun | .int s => some (digitsToNat s.toList) | _ => none)
-      let bools := es.filterMap (fun | .bool b => some b | _ => none)
+      let ints := es.filterMap ArrEntry.intVal
+      let bools := es.filterMap ArrEntry.boolVal
       match ints.find? (fun v => decide (v > i64Max)) with
       | some v => .ok (.int v, r)
       | none =>
